@@ -1406,9 +1406,11 @@ def life_spec(pid, line, snaps, div=None):
                     continue
                 want = 0
                 for it in reqs.get(ci, []):
-                    want += 1
                     if it["kind"] == "unbind":
+                        if "unbind=0" not in cfgs:
+                            want += 1       # the unbind route's handler (inline); without a route nothing runs
                         break
+                    want += 1
                 if len(c["started"]) < want:
                     return ("not-dispatched", "connection %d: %d requests were pipelined and only %d were handed to a handler while the earlier ones block (operation %d)" % (ci, want, len(c["started"]), k))
     if pid == "C06" and P:
@@ -1450,6 +1452,10 @@ def life_check(pid, gens, n, tier, seed, res):
     cases = ""
     for gname in gens:
         cases += gen_cases(gname, seed, n, tier)
+    if pid != "C17":
+        # random histories over the whole operation alphabet (a few on every run, many in the thorough tier);
+        # a different stream per property
+        cases += gen_cases("liferand", seed * 100 + int(pid[1:]), 4 if tier == "quick" else 150, tier)
     cases = renumber(cases)
     os.makedirs(wd(pid), exist_ok=True)
     open(os.path.join(wd(pid), "life.cases"), "w").write(cases)
